@@ -352,7 +352,7 @@ func checkC09(rep *core.Report) {
 				if !ok || !sd.skipGuard.Dominates(r.Block()) || !(core.Walk{}).CanReach(sd.skip, r) {
 					return
 				}
-				vals, complete := core.ResolveAlongPaths(sd.skip, r, r.Results[0], nilEdgeFilter(skipErr, false), 64)
+				vals, complete := core.ResolveAlongPathsR(sd.skip, r, r.Results[0], nilEdgeFilterR(skipErr, false), 64)
 				only := complete && len(vals) == 1 && vals[ssa.Value(skipErr)]
 				var got []string
 				for v := range vals {
@@ -396,8 +396,21 @@ func describeVal(v ssa.Value) string {
 		}
 	case *ssa.Phi:
 		return "var:" + x.Comment
+	case *ssa.MakeInterface:
+		return "new:" + types.TypeString(x.X.Type(), func(p *types.Package) string { return p.Name() })
+	case *ssa.Parameter:
+		return "param:" + x.Name()
 	}
-	return v.Name()
+	if ld, ok := v.(*ssa.UnOp); ok {
+		if a, ok := ld.X.(*ssa.Alloc); ok {
+			return "var:" + a.Comment
+		}
+		if _, f := fieldLoad(ld); f != nil {
+			return "field:" + f.Name()
+		}
+	}
+	// no register names in keys: they change with unrelated edits
+	return "value:" + types.TypeString(v.Type(), func(p *types.Package) string { return p.Name() })
 }
 
 func firstCallNamed(fn *ssa.Function, name string) *ssa.Call {
